@@ -132,8 +132,10 @@ NOEXTRA = {"asetPos": [], "avalPos": [], "osetShort": [], "ovalShort": [], "allA
 
 
 def listing(fobj):
-    return json.dumps([[o.long_name for o in fobj.get_options().values()], list(fobj.get_arguments()),
-                       [c.string for c in fobj.get_command_names()], [c.long_name for c in fobj.get_command_options()]])
+    return json.dumps([[(o.long_name, o.short_name, o.flags, repr(o.default)) for o in fobj.get_options().values()],
+                       [(a.name, a.flags, repr(a.default)) for a in fobj.get_arguments().values()],
+                       [(c.string, list(c.aliases)) for c in fobj.get_command_names()],
+                       [c.long_name for c in fobj.get_command_options()]])
 
 
 def make_raw(toks, form):
